@@ -6,7 +6,7 @@ ROOT = os.path.dirname(os.path.dirname(os.path.abspath(__file__)))
 PAGER = "TLA+ mechanism model Pager.tla checked exhaustively by TLC (all interleavings of readers, savepoint handles and every critical section of the writer), "
 
 CLAIMS = {
- "C12": dict(cat="fault_enumeration", tech="TLA+ oracle (Kv.tla CorruptProbe) for an exhaustive byte-level alteration sweep of closed images: each altered image is opened and checked by redb, TLC trace validation judges every distinct outcome",
+ "C12": dict(cat="fault_enumeration", tech="TLA+ oracle (Kv.tla CorruptProbe) for an exhaustive byte-level alteration sweep of closed images: each altered image is opened and checked by redb (alterations inside the system tree or the header: persistent savepoints restored on a copy as well), TLC trace validation judges every distinct outcome",
    text="complete single-byte sweep (4 patterns) of compacted images plus header bit flips, byte runs and page swaps; Ok(true)/Ok(false) from check_integrity is accepted only with contents equal to one commit point of the history (and a clean second check after a repair).",
    note="panics on altered images are counted and treated like errors; alterations larger than 64 bytes other than page swaps are outside the quantifier", ref="DESIGN.md 4/C12"),
  "C11": dict(cat="fault_enumeration", tech="TLA+ spec PagerCrash.tla (crash inside any critical section of the page-ownership model + rebuild) checked by TLC; TLA+ oracle (Kv.tla CrashProbe + PagerInv.tla Owner1) for enumeration of open paths: clean close, every crash image (C01 machinery) incl. crashes during recovery; TLC trace validation of the observations and of the allocation state projected right after the open",
@@ -39,8 +39,8 @@ CLAIMS = {
  "C14": dict(cat="model_checking", tech="TLA+ spec Buddy.tla checked by TLC; exhaustive (state, operation) tour of the real allocator and random walks validated by TLC trace validation (BuddyTrace.tla)",
    text="every (length, free-set) state of a capacity-8 region x every operation is executed on the real buddy allocator and validated by TLC, including the allocator's own free-block structure (must be canonical: maximal merged blocks) and refusal only when nothing fits; random walks on larger capacities; region tracker invariant on multi-region database histories.",
    note="allocator driven through a cfg(redb_verif) wrapper; shrinking only with a free tail (asserted by the implementation)", ref="DESIGN.md 4/C14"),
- "C02": dict(cat="model_checking", tech=PAGER + "forced-schedule replay through a pause point and TLC trace validation of snapshot re-reads and page accounting",
-   text="design: invariant Pinned holds in every reachable state of the small model (and is violated by the two seeded-bad variants of the model). code: the begin_read window is forced while commits free and reuse pages; live readers, owned iterators and guards are re-read after later commits/aborts/restores/compaction; projected page sets at every transaction boundary satisfy the same invariants. Found and fixed a genuine defect (known_findings.txt).",
+ "C02": dict(cat="model_checking", tech=PAGER + "forced-schedule replay through a pause point and TLC trace validation of snapshot re-reads (readers, owned iterators, held multimap values, untyped table handles) and page accounting; behaviours generated by TLC from Kv.tla replayed on the code",
+   text="design: invariant Pinned holds in every reachable state of the small model (and is violated by the two seeded-bad variants of the model). code: the begin_read window is forced while commits free and reuse pages; live readers, owned iterators and guards are re-read after later commits/aborts/restores/compaction; projected page sets at every transaction boundary satisfy the same invariants. Found and fixed two genuine defects (known_findings.txt: the begin_read race; untyped table handles that did not pin their snapshot).",
    note="trusted: TLC, harness, verif hooks (read-only projections); interleavings inside a single B-tree read are not controlled", ref="DESIGN.md 4/C02"),
  "C03": dict(cat="model_checking", tech=PAGER + "forced begin_read/commit interleavings and sequential histories validated by TLC against the serial order of Kv.tla",
    text="design: one write slot, readers see committed roots not older than their registration, commits publish atomically (Pager.tla). code: forced interleavings of begin_read with commits (window semantics of Kv.tla), histories of commits of all durabilities/aborts validated as one serial order.",
